@@ -109,9 +109,9 @@ def _alphabet(seed):
     return a, reps
 
 
-CORE = ["", "plain*", "a,b", '"', 'say "hi"', "l1\nl2", "l1\rl2", "l1\r\nl2", "\r", "\n", "  pad  ", " ", "a\tb", "x y ",
-        "latin*", "astral*", "0", "-0", "12", "+3", "price*", "thousands*", "1,2,3", "1e3", "1_000", "١٢", ".5", "5.", "int15*",
-        "nan", "NaN", "inf", "-inf", "Infinity", "1e400", "in,f", "0x10", "1e", "--1", "TRUE", "2020-01-02", "=A1"]
+CORE = ["", "plain*", "a,b", '"', 'say "hi"', "l1\nl2", "l1\rl2", "l1\r\nl2", "\r", "  pad  ", " ", "a\tb", "x\u00a0y\u00a0",
+        "latin*", "astral*", "0", "-0", "12", "price*", "thousands*", "1,2,3", "1e3", "\u0661\u0662", ".5", "int15*",
+        "nan", "inf", "1e400", "in,f", "0x10", "2020-01-02", "=A1"]
 HOSTILE = ["", "a,b", '"', "l1\rl2", "l1\r\nl2", "  pad  ", "thousands*", "nan"]
 
 
